@@ -453,8 +453,9 @@ def rule_predict_epoch(ctx, R):
 
                 def resolve(e, cb=cb):
                     if e.kind == 'place' and e.root[0] == 'upvar' and cb.kind == 'Closure':
-                        pb, pe = upvar_expr(ctx.F, cb, e.root[1])
-                        return pe.strip() if pe is not None else e
+                        # projection aware: `ctx.epoch` of a captured `Ctx { scene_id, epoch }` is the epoch
+                        from lib import subst_upvars
+                        return subst_upvars(ctx.F, cb, e).strip()
                     return e
                 ep, sc = resolve(ep), resolve(sc)
                 n += 1
